@@ -36,7 +36,7 @@ def run(ctx):
     ctx.assumptions = ["self-dependencies cannot be declared (AddDependency aborts), so self-loops are model-only",
                        "node iteration order is covered by relabelling: the enumerated graph set is closed under permutation"]
     if ctx.replay_only is not None:
-        cases = ctx.replay_only
+        cases = [d["case"] for d in ctx.replay_only]
     else:
         # design-level: the algorithm model satisfies C06 on all graphs incl. self-loops
         vlib.tlc(ctx, "CycleDetector", "MC_CycleDetector_4.cfg")
